@@ -23,8 +23,8 @@ def run(ctx):
     num = 2000 if ctx.thorough else 300
     for name in ["Elastic", "Thermal", "MatSimu"]:
         lc.simulate_and_replay(ctx, name, lc.STORE_ACTS, num, 14, ctx.seed + 11, label="store")
-    for name in ["Beam", "Elastic3D", "WeakForms", "HyperElastic"]:
-        lc.simulate_and_replay(ctx, name, lc.STORE_ACTS, num // 2, 14, ctx.seed + 12, label="store")
+    for name in ["Beam", "Elastic3D", "WeakForms", "HyperElastic", "PhaseField"]:
+        lc.simulate_and_replay(ctx, name, lc.STORE_ACTS, num // 3, 14, ctx.seed + 12, label="store")
     # direction B: Save_Iter / Set_Iter events recorded while the repository's tests run, judged by Trace_Lifecycle.tla (AppendOnly, PureRead)
     from harness import repo_trace
 
